@@ -352,7 +352,27 @@ def argumentsMapPut (o : Obj) (name : String) (value : V) : M Unit :=
      | none => pure ())
   | _ => pure ()
 
-/-- objectClass.defineOwnProperty: objectDefineOwnProperty, argumentsDefineOwnProperty (type_arguments.go:80) -/
+/-- type_arguments.go:93 argumentsDelete after objectDelete: `if _, exists := get(name); exists { delete(name) }`,
+    i.e. `indexOfParameterName[index] = ""` for a mapped index -/
+def unmapIndex (v : OVal) (name : String) : OVal :=
+  match v with
+  | .arguments ipn stash => (match arrayIndex name with
+    | some index => (match ipn[index]? with
+      | some pn => if pn = "" then v else .arguments (setNth ipn index "") stash
+      | none => v)
+    | none => v)
+  | v => v
+
+/-- type_arguments.go:57 argumentsObject.delete on the object at `a` -/
+def argumentsMapDelete (a : Nat) (name : String) : M Unit := do
+  let σ ← getSt
+  match σ.obj? a with
+  | some o => setObj a { o with val := unmapIndex o.val name }
+  | none => pure ()
+
+/-- objectClass.defineOwnProperty: objectDefineOwnProperty, argumentsDefineOwnProperty (type_arguments.go:80).
+    The descriptor is a complete data descriptor: never an accessor, its value is present, and `unmap` is
+    "writable is set and false" -/
 def defineOwnProperty (a : Nat) (name : String) (d : Pty) (throw : Bool) : M Bool := do
   let σ ← getSt
   match σ.obj? a with
@@ -365,7 +385,10 @@ def defineOwnProperty (a : Nat) (name : String) (d : Pty) (throw : Bool) : M Boo
        | some _ => do
          let ok ← objectDefineOwnProperty a name d false
          if !ok then typeErrorResult throw
-         else do argumentsMapPut o name d.value; pure true
+         else do
+           argumentsMapPut o name d.value
+           if !d.w then argumentsMapDelete a name else pure ()
+           pure true
        | none => objectDefineOwnProperty a name d throw)
     | _ => objectDefineOwnProperty a name d throw
 
@@ -379,17 +402,6 @@ def objPut (a : Nat) (name : String) (value : V) (throw : Bool) : M Unit := do
   else match own with
     | some p => do let _ ← defineOwnProperty a name { p with value := value } throw; pure ()
     | none => do let _ ← defineProperty a name (p111 value) throw; pure ()
-
-/-- type_arguments.go:93 argumentsDelete after objectDelete: `if _, exists := get(name); exists { delete(name) }`,
-    i.e. `indexOfParameterName[index] = ""` for a mapped index -/
-def unmapIndex (v : OVal) (name : String) : OVal :=
-  match v with
-  | .arguments ipn stash => (match arrayIndex name with
-    | some index => (match ipn[index]? with
-      | some pn => if pn = "" then v else .arguments (setNth ipn index "") stash
-      | none => v)
-    | none => v)
-  | v => v
 
 /-- objectClass.delete: objectDelete (object_class.go:443), argumentsDelete (type_arguments.go:93) -/
 def objDelete (a : Nat) (name : String) (throw : Bool) : M Bool := do
@@ -756,25 +768,38 @@ inductive Step where
 /-! ## entering code: declarations (no evaluation involved) -/
 
 /-- cmpl_evaluate.go:79 cmplFunctionDeclaration -/
-def functionDeclaration : Nat → FDecls → M Unit
-  | 0, _ => outOfFuel
-  | _+1, .nil => pure ()
-  | n+1, .cons name f r => do
+def functionDeclaration : Nat → FDecls → Bool → M Unit
+  | 0, _, _ => outOfFuel
+  | _+1, .nil, _ => pure ()
+  | n+1, .cons name f r, eval => do
     let sc ← curScope
     let o ← newNodeFunction f sc.lexical
     let has ← hasBinding sc.variable_ name
-    if !has then createBinding sc.variable_ name sc.eval (.ref o)
-    else setBinding sc.variable_ name (.ref o) false
-    functionDeclaration n r
+    if !has then createBinding sc.variable_ name eval (.ref o)
+    else do
+      -- 10.5 step 5.e, when the variable environment is the global stash (stash 0)
+      if sc.variable_ == 0 then do
+        let existing ← getProperty (← chainFuel) gObj name
+        (match existing with
+         | none => pure ()
+         | some p =>
+           if p.c then do
+             let _ ← defineOwnProperty gObj name { value := .undef, w := true, e := true, c := eval } true
+             pure ()
+           else if !p.w || !p.e then throwErr "TypeError"
+           else pure ())
+      else pure ()
+      setBinding sc.variable_ name (.ref o) false
+    functionDeclaration n r eval
 
 /-- cmpl_evaluate.go:100 cmplVariableDeclaration -/
-def variableDeclaration : List String → M Unit
-  | [] => pure ()
-  | name :: r => do
+def variableDeclaration : List String → Bool → M Unit
+  | [], _ => pure ()
+  | name :: r, eval => do
     let sc ← curScope
     let has ← hasBinding sc.variable_ name
-    if !has then createBinding sc.variable_ name sc.eval .undef else pure ()
-    variableDeclaration r
+    if !has then createBinding sc.variable_ name eval .undef else pure ()
+    variableDeclaration r eval
 
 /-- cmpl_evaluate.go:27–72: what cmplCallNodeFunction does before it evaluates the body -/
 def instantiateNode (n : Nat) (function : Nat) (stash : Nat) (ps : List String) (vs : List String) (ds : FDecls)
@@ -794,8 +819,8 @@ def instantiateNode (n : Nat) (function : Nat) (stash : Nat) (ps : List String) 
     setValue sc.lexical "arguments" (.ref arguments) false
     defineUnmapped arguments ipn argumentList argumentList.length 0
   else pure ()
-  functionDeclaration n ds                                                          -- :71
-  variableDeclaration vs                                                            -- :72
+  functionDeclaration n ds false                                                    -- :71
+  variableDeclaration vs false                                                      -- :72
 
 /-! ## The evaluators -/
 
@@ -844,6 +869,11 @@ def evalE : Nat → FE → M MV
       pure (.val rightValue)
     | .del o p => do                                                                 -- :341 unary DELETE
       let target ← evalE n (.get o p)
+      (match target with
+       | .ref r => do let b ← refDelete r; pure (.val (.bool b))
+       | .val _ => pure (.val (.bool true)))
+    | .delV x => do
+      let target ← evalE n (.var x)
       (match target with
        | .ref r => do let b ← refDelete r; pure (.val (.bool b))
        | .val _ => pure (.val (.bool true)))
@@ -948,9 +978,21 @@ def evalE : Nat → FE → M MV
       (match ov with
        | .ref a => do let _ ← defineOwnProperty a p (p101 v) true; pure (.val ov)
        | _ => throwErr "TypeError")
+    | .defFix o p e1 => do                                                           -- builtin_object.go:119
+      let ov ← resolve (← evalE n o)
+      let v ← resolve (← evalE n e1)
+      (match ov with
+       | .ref a => do let _ ← defineOwnProperty a p (p000 v) true; pure (.val ov)
+       | _ => throwErr "TypeError")
+    | .defRO o p e1 => do                                                            -- builtin_object.go:119
+      let ov ← resolve (← evalE n o)
+      let v ← resolve (← evalE n e1)
+      (match ov with
+       | .ref a => do let _ ← defineOwnProperty a p { value := v, w := false, e := true, c := true } true; pure (.val ov)
+       | _ => throwErr "TypeError")
     | .evalD vs ds body =>                                                           -- builtin.go:17, call.eval = true
       -- type_function.go:169–172: a direct call enters no scope
-      do let v ← evalProgram n vs ds body; pure (.val v)
+      do let v ← evalProgram n vs ds body true; pure (.val v)
     | .evalI vs ds body => do                                                        -- builtin.go:17, call.eval = false
       let sc ← curScope
       -- type_function.go:176–194: the native call gets a function scope of its own …
@@ -958,7 +1000,7 @@ def evalE : Nat → FE → M MV
       let v ← deferM (do
           -- … and builtinGlobalEval enters the global one (builtin.go:24–28)
           enterGlobalScope
-          deferM (evalProgram n vs ds body) leaveScope)
+          deferM (evalProgram n vs ds body true) leaveScope)
         leaveScope
       pure (.val v)
 termination_by structural n => n
@@ -983,12 +1025,13 @@ def evalProps : Nat → FProps → Nat → M Unit
     evalProps n r result
 termination_by structural n => n
 
-/-- cmpl_evaluate.go:7 cmplEvaluateNodeProgram(node, eval = true) as called by builtinGlobalEval (builtin.go:29–33) -/
-def evalProgram : Nat → List String → FDecls → FSs → M V
-  | 0, _, _, _ => outOfFuel
-  | n+1, vs, ds, body => do
-    functionDeclaration n ds
-    variableDeclaration vs
+/-- cmpl_evaluate.go:7 cmplEvaluateNodeProgram(node, eval): eval = true as called by builtinGlobalEval
+    (builtin.go:29–33), false for the program itself -/
+def evalProgram : Nat → List String → FDecls → FSs → Bool → M V
+  | 0, _, _, _, _ => outOfFuel
+  | n+1, vs, ds, body, eval => do
+    functionDeclaration n ds eval
+    variableDeclaration vs eval
     let r ← evalList n body .undef
     pure (match r with | .val v => v | .ret v => v | _ => .undef)
 termination_by structural n => n
@@ -1174,17 +1217,17 @@ def evalS : Nat → FS → M SV
       let σ ← getSt
       let labels := σ.labels ++ [""]
       modifySt fun σ => { σ with labels := [] }
-      let sourceValue ← resolve (← evalE n oe)
-      (match sourceValue with
-       | .undef => pure .empty
-       | .null => pure .empty
-       | _ => do
-         let sourceObject ← toObject sourceValue
-         let σ ← getSt
-         let hasProto : Bool := match σ.obj? sourceObject with
-           | some o => o.proto.isSome
-           | none => false
-         forInChain n x b labels sourceObject hasProto (some sourceObject) .empty [])
+      forInRun n x oe b labels
+    | .forInI x ie oe b => do                                                           -- :182, `for (var x = ie in oe)`
+      let σ ← getSt
+      let labels := σ.labels ++ [""]
+      modifySt fun σ => { σ with labels := [] }
+      -- the initialiser: cmplEvaluateNodeVariableExpression once, before the source expression
+      let sc ← curScope
+      let left ← getIdentifierReference (← stashFuel) (some sc.lexical) x
+      let rv ← resolve (← evalE n ie)
+      rtPutValue left rv
+      forInRun n x oe b labels
     | .label l s1 => do                                                                 -- :76
       modifySt fun σ => { σ with labels := σ.labels ++ [l] }
       let value ← deferM (evalS n s1) (fun σ => { σ with labels := σ.labels.dropLast })
@@ -1193,6 +1236,23 @@ def evalS : Nat → FS → M SV
        | _ => pure value)
     | .brk l => pure (.brk (l.getD ""))                                                 -- :37
     | .cont l => pure (.cont (l.getD ""))
+termination_by structural n => n
+
+/-- cmplEvaluateNodeForInStatement from the source expression on -/
+def forInRun : Nat → String → FE → FSs → List String → M SV
+  | 0, _, _, _, _ => outOfFuel
+  | n+1, x, oe, b, labels => do
+    let sourceValue ← resolve (← evalE n oe)
+    (match sourceValue with
+     | .undef => pure .empty
+     | .null => pure .empty
+     | _ => do
+       let sourceObject ← toObject sourceValue
+       let σ ← getSt
+       let hasProto : Bool := match σ.obj? sourceObject with
+         | some o => o.proto.isSome
+         | none => false
+       forInChain n x b labels sourceObject hasProto (some sourceObject) .empty [])
 termination_by structural n => n
 
 /-- the nodeBlockStatement case, cmpl_evaluate_statement.go:26–36 -/
@@ -1310,7 +1370,7 @@ end
     and left by a defer; the result as cmplRunOrEval (runtime.go:823) hands it out -/
 def runProgram (n : Nat) (vs : List String) (ds : FDecls) (body : FSs) : R V :=
   (do enterGlobalScope
-      deferM (evalProgram n vs ds body) leaveScope) initSt
+      deferM (evalProgram n vs ds body false) leaveScope) initSt
 
 /-- the reply token of the `fn` stream, as the harness builds it from otto's answer (cmd/c01/impl.go implFn) -/
 def out (r : R V) : String :=
